@@ -362,7 +362,7 @@ def run_harness(h, scratch, slot, logdir):
     if status == "FAIL" and want_cex:
         # unexpected counterexample: re-run asking the solver for the concrete values
         logpath2 = os.path.join(logdir, h["id"] + ".playback.log")
-        rc2, to2, wall2 = run_capped(kani_cmd(h, scratch, tdir, playback=True), scratch.repo, cap * 3, logpath2)
+        rc2, to2, wall2 = run_capped(kani_cmd(h, scratch, tdir, playback=True), scratch.repo, max(cap, 900), logpath2)
         text = open(logpath2, errors="replace").read()
         wall += wall2
     res = {"id": h["id"], "status": status, "reason": reason, "wall_s": round(wall, 1),
@@ -382,7 +382,7 @@ def run_harness(h, scratch, slot, logdir):
                 cmd += ["--output-format", "old", "--cbmc-args", "--trace"]
             if "--output-format" not in cmd:
                 cmd[cmd.index("--cbmc-args"):cmd.index("--cbmc-args")] = ["--output-format", "old"]
-            run_capped(cmd, scratch.repo, cap * 3, logpath3)
+            run_capped(cmd, scratch.repo, max(cap, 900), logpath3)
             t = trace_playback_test(h, open(logpath3, errors="replace").read())
             if t:
                 res["playback"] = [t]
@@ -673,7 +673,8 @@ def main(argv):
             log("  harness=%s failed: %s" % (r["id"], r.get("reason", "")))
             for d in r.get("replay_detail", []):
                 log("    " + d)
-        if not a.no_evidence:
+        if not a.no_evidence and not a.only:
+            # (a partial run selected with --only never overwrites the property's evidence file)
             write_evidence(prop, a, seed, results, aux_results, sel, t_start, sc,
                            violations=len(violations), inconclusive=[(r["id"], w) for r, w in inconclusive],
                            known=known_lines, undecided=[(r["id"], w) for r, w in undecided])
